@@ -32,6 +32,8 @@ type seedSpec struct {
 	// Prelude: operations applied in the session itself (after the open on the seed, before the
 	// enumerated history): what the running process remembers is part of the state
 	Prelude string `json:"prelude_in_session,omitempty"`
+	// Spelling of the roots in the configuration (dbh.Spec.RootSpelling): 1 trailing slash, 2 a "." element
+	Spelling int `json:"root_spelling,omitempty"`
 }
 
 func (s seedSpec) limit() int {
@@ -53,7 +55,7 @@ func (s seedSpec) seedKeys() int {
 }
 
 func (s seedSpec) spec() dbh.Spec {
-	return dbh.Spec{Roots: s.Roots, MaxDirCount: s.CfgLimit, Workers: 1}
+	return dbh.Spec{Roots: s.Roots, MaxDirCount: s.CfgLimit, Workers: 1, RootSpelling: s.Spelling}
 }
 
 var seedCache = map[seedSpec]*dbh.Snapshot{}
@@ -465,6 +467,7 @@ func init() {
 		roots := []int{1, 2}
 		var only map[string]bool
 		prelude := ""
+		spell := 0
 		for _, kv := range strings.Split(p, ",") {
 			if i := strings.IndexByte(kv, '='); i > 0 {
 				k, v := kv[:i], kv[i+1:]
@@ -489,6 +492,8 @@ func init() {
 					f.reuse = v != "0"
 				case "prelude":
 					prelude = v
+				case "spell":
+					fmt.Sscan(v, &spell)
 				case "layouts":
 					only = map[string]bool{}
 					for _, x := range strings.Split(v, ".") {
@@ -510,7 +515,7 @@ func init() {
 					if only != nil && !only[lay] {
 						continue
 					}
-					s := seedSpec{Roots: r, CfgLimit: l, Layout: lay, Prelude: prelude}
+					s := seedSpec{Roots: r, CfgLimit: l, Layout: lay, Prelude: prelude, Spelling: spell}
 					for _, d := range []int{2, 1, 0} {
 						if lay != "" && d == 2 {
 							continue
